@@ -15,6 +15,7 @@ CW = "qucumber/nn_states/complex_wavefunction.py"
 DM = "qucumber/nn_states/density_matrix.py"
 PA = "qucumber/observables/pauli.py"
 EN = "qucumber/observables/entanglement.py"
+TS = "qucumber/utils/training_statistics.py"
 UN = "qucumber/utils/unitaries.py"
 CX = "qucumber/utils/cplx.py"
 
@@ -159,6 +160,19 @@ MUTANTS = [
     M("c09-roll-zero", "C09", (EN, "samples2 = torch.roll(samples1, 1, 0)", "samples2 = torch.roll(samples1, 0, 0)")),
     M("c09-swap-only-one-replica", "C09", (EN, "    s2[:, A] = _s\n", "    pass\n")),
     M("c09-roll-two-large-batches", "C09", (EN, "samples2 = torch.roll(samples1, 1, 0)", "samples2 = torch.roll(samples1, 1 if samples1.shape[0] < 3 else 2, 0)")),
+    # ---- C10
+    M("c10-fidelity-not-squared", "C10", (TS, "return cplx.absolute_value(F).pow_(2).item()", "return cplx.absolute_value(F).item()")),
+    M("c10-fidelity-missing-Z", "C10", (TS, "psi = nn_state.psi(space) / Z.sqrt()", "psi = nn_state.psi(space) / Z.sqrt().clamp(max=1.5)")),
+    M("c10-kl-not-averaged", "C10", (TS, "            KL += _single_basis_KL(target_probs_r, nn_probs_r)\n\n        KL /= float(len(bases))\n    else:", "            KL += _single_basis_KL(target_probs_r, nn_probs_r)\n\n    else:")),
+    M("c10-nll-sign", "C10", (TS, "NLL_ -= torch.sum(probs_to_logits(nn_probs))", "NLL_ += torch.sum(probs_to_logits(nn_probs))")),
+    M("c10-kl-target-conj-dict", "C10", (TS, "target_psi_r = rotate_psi(nn_state, basis, space, psi=target)", "target_psi_r = rotate_psi(nn_state, basis, space, psi=cplx.conj(target))")),
+    M("c10-f6-regression", "C10", (TS, "return (NLL_ / float(len(samples))).item()", "return NLL_ / float(len(samples))")),
+    M("c10-f7-regression", "C10", (TS, "            target_probs = torch.diagonal(cplx.real(target))", "            target_probs = cplx.absolute_value(target) ** 2")),
+    M("c10-f11-regression", "C10", (UN, "    unitaries = getattr(nn_state, \"unitary_dict\", None)\n", "    unitaries = nn_state.unitary_dict\n")),
+    M("c10-mixed-fidelity-no-sqrt", "C10", (TS, "trace = np.sum(np.sqrt(eigvals))", "trace = np.sqrt(np.sum(eigvals))")),
+    M("c10-nll-mixed-missing-Z", "C10", (TS, "rotate_rho_probs(nn_state, basis, samples[indices == i, :]) / Z", "rotate_rho_probs(nn_state, basis, samples[indices == i, :])")),
+    M("c10-kl-dict-mixed-abs", "C10", (TS, "target_probs_r = torch.diagonal(cplx.real(target_rho_r))", "target_probs_r = torch.diagonal(cplx.real(target_rho_r)).roll(1)")),
+    M("c10-nll-divides-by-unique-bases", "C10", (TS, "return (NLL_ / float(len(samples))).item()", "return (NLL_ / float(len(samples) if unique_bases.shape[0] < 3 else len(samples) - 1)).item()")),
 ]
 
 BENIGN = [
